@@ -162,6 +162,7 @@ class Sub:
     run: Callable[[int], tuple] | None = None
     exhaustive_flag: bool = False  # set True if this sub enumerates a finite domain completely
     in_parent: bool = False  # run in the parent process (needed when the check spawns its own pools)
+    hidden: bool = False  # not run by the main loop (executed by another sub-check, e.g. in fresh interpreters)
 
 
 # ----------------------------------------------------------------------------------------------
@@ -490,6 +491,8 @@ def run_property(mod, tier: str) -> int:
     exhaustive_all = True
     harness_errors: list[str] = []
     for name, sub in checks.items():
+        if sub.hidden:
+            continue
         ts = time.time()
         try:
             st, fails = run_sub(sub, SEED)
@@ -637,3 +640,61 @@ def run_python(code: str, env_extra: dict | None = None, stdin: str | None = Non
     if p.returncode != 0:
         raise HarnessError(f"sub-interpreter failed ({p.returncode}):\n{p.stderr[-3000:]}")
     return p.stdout
+
+
+_SHARD_CODE = r"""
+import sys, json, warnings
+warnings.filterwarnings("ignore")
+sys.path.insert(0, {verif!r})
+import importlib
+from mzverif import core
+core._KNOWN_ACTIVE = core.load_known({prop!r})
+mod = importlib.import_module("mzverif.props." + {prop!r})
+sub = [s for s in mod.subs({tier!r}) if s.name == {inner!r}][0]
+sub.examples = {examples}
+st, fails = core._hypothesis_shard(sub, {shard}, {seed})
+print("RESULT" + json.dumps({{"evaluations": st.evaluations, "nontrivial": sorted(st.nontrivial), "labels": dict(st.labels), "samples": st.samples,
+      "discarded": st.discarded, "excluded_known": st.excluded_known,
+      "fails": [{{"sub": f.sub, "sig": f.sig, "msg": f.msg, "case": f.case}} for f in fails]}}, default=core._json_default))
+"""
+
+
+def hypothesis_in_fresh_interpreters(prop: str, tier: str, inner: str, name: str, total_examples: int, chunk: int, timeout: int):
+    """run(seed) for a custom Sub: the Hypothesis sub-check `inner` of `prop` is executed in fresh top-level interpreters, `chunk`
+    examples at a time, each under a wall limit. A chunk that hangs is killed and counted (extra.hung_chunks); it is a harness
+    matter (exit 2 if every chunk hangs), never a violation."""
+    import subprocess
+
+    def run(seed_val: int):
+        stats, fails, hung = Stats(), [], 0
+        n_chunks = max(1, (total_examples + chunk - 1) // chunk)
+        for k in range(n_chunks):
+            code = _SHARD_CODE.format(verif=VERIF_DIR, prop=prop, tier=tier, inner=inner, examples=min(chunk, total_examples - k * chunk), shard=k, seed=seed_val)
+            p = subprocess.Popen([sys.executable, "-B", "-W", "ignore", "-c", code], stdout=subprocess.PIPE, stderr=subprocess.PIPE, text=True, start_new_session=True)
+            try:
+                out, err = p.communicate(timeout=timeout)
+            except subprocess.TimeoutExpired:
+                import signal
+
+                try:
+                    os.killpg(p.pid, signal.SIGKILL)
+                except Exception:
+                    p.kill()
+                p.communicate()
+                hung += 1
+                continue
+            line = next((ln for ln in out.splitlines() if ln.startswith("RESULT")), None)
+            if p.returncode != 0 or line is None:
+                raise HarnessError(f"fresh interpreter for {prop}/{inner} failed ({p.returncode}):\n{err[-2000:]}")
+            d = json.loads(line[len("RESULT"):])
+            st = Stats(evaluations=d["evaluations"], nontrivial=set(d["nontrivial"]), labels=Counter(d["labels"]), samples=d["samples"],
+                       discarded=d["discarded"], excluded_known=d["excluded_known"])
+            stats.merge(st)
+            fails += [Failure(name, f["sig"], f["msg"], f["case"]) for f in d["fails"]]
+        stats.extra["chunks"] = n_chunks
+        stats.extra["hung_chunks"] = hung
+        if hung == n_chunks:
+            raise HarnessError(f"every chunk of {prop}/{inner} exceeded its wall limit of {timeout}s")
+        return stats, fails
+
+    return run
